@@ -103,7 +103,7 @@ def inject(scratch, extra_tests=None):
             with open(os.path.join(src, fn), "w") as f:
                 f.write(body)
             with open(tpath, "a") as f:
-                f.write("\n#[cfg(kani)]\n#[path = \"%s\"]\nmod verif_kani;\n" % fn)
+                f.write("\n#[cfg(kani)]\n#[path = \"%s\"]\npub(crate) mod verif_kani;\n" % fn)
             report["modules"].append("src/%s += mod verif_kani (%s)" % (target, fn))
         elif fn.endswith(".rs") and fn.startswith("common"):
             shutil.copy(os.path.join(KDIR, fn), os.path.join(src, fn))
